@@ -112,6 +112,13 @@ def check_one(acc: core.Acc, s: str, multiline: bool, embed: bool) -> None:
             first = t()
             t.push_back(*first)
             routes['push_back_then_call'] = t()
+            t = Tokenizer(text, None, allow_escapes=False)
+            t.allow_escapes = True          # the option is a public attribute; readers switch it after construction
+            routes['allow_escapes_set_after_construction'] = t()
+            # every two-chunk split of the quoted text, and the text one character per chunk
+            for i in range(1, len(text)):
+                routes[f'chunks@{i}'] = Tokenizer([text[:i], text[i:]], None, allow_escapes=True)()
+            routes['chunk_per_char'] = Tokenizer(iter(list(text)), None, allow_escapes=True)()
         except Exception as exc:  # noqa: BLE001
             acc.fail('consume_route_raises', case, f's={s!r}: {sorted(routes)[-1:] or "first route"} then {type(exc).__name__}: {exc}', multiline=multiline)
             return
@@ -391,30 +398,39 @@ def check_sites(acc: core.Acc, s: str, only_prefix: tuple = ()) -> None:
             continue          # an output field cannot contain its own separator (the parameter may: spare commas belong to it)
         if name.startswith('bsp.') and (not s.isascii() or '\x1b' in s or s == '\x00'):
             continue          # the entity lump is ASCII (+surrogateescape bytes); ESC makes a value an output; a lone NUL token is the lump terminator
+        _check_site(acc, name, fn, s, {'s': s, 'site': name})
+        # a pair in order: the same site then writes and reads the string in the other letter case (and its casefold()), which
+        # must come back as spelled - nothing remembered from the first string may be reused for the second
+        for variant in dict.fromkeys((s.swapcase(), s.casefold(), s.upper())):
+            if variant != s and len(variant) <= len(s) + 2:
+                _check_site(acc, name, fn, variant, {'s': variant, 'site': name, 'after': s})
+
+
+def _check_site(acc: core.Acc, name: str, fn, s: str, case: dict) -> None:
+    if True:
         acc.evaluations += 1
-        case = {'s': s, 'site': name}
         try:
             text, opts, want = fn(s)
         except Exception as exc:  # noqa: BLE001
             acc.fail('site_writer_raises', case, f'{name}: writing {s!r} raised {type(exc).__name__}: {exc}', site=name.split('.')[0])
-            continue
+            return
         got = [v for t, v in toks(text, **opts) if t in ('STRING', 'ERR', 'EXC')]
         # the expected values must appear consecutively
         n = len(want)
         if not any(got[i:i + n] == want for i in range(len(got) - n + 1)):
             acc.fail('site_not_inverse', case, f'{name}: {s!r} written as {text[:300]!r}; string tokens read back {got[:12]!r}, expected to contain {want!r}',
                      site=name)
-            continue
+            return
         rd = real_reader_for(name)
         if rd is None:
-            continue
+            return
         acc.evaluations += 1
         want_r = [w for w in want if w not in ('string', 'string_array')]
         try:
             got_r = rd(text)
         except Exception as exc:  # noqa: BLE001
             acc.fail('site_reader_raises', case, f'{name}: {s!r} written as {text[:300]!r}; the format\'s own reader raised {type(exc).__name__}: {exc}', site=name)
-            continue
+            return
         n = len(want_r)
         if not any(got_r[i:i + n] == want_r for i in range(len(got_r) - n + 1)):
             acc.fail('site_reader_not_inverse', case, f'{name}: {s!r} written as {text[:300]!r}; the format\'s own reader returned {got_r[:14]!r}, expected to contain {want_r!r}',
@@ -495,14 +511,14 @@ def run(ctx: core.Ctx) -> None:
                 f'<= {SL} written by the REAL writers at every call site of escape_text (Keyvalues names/values/block names, VMF keys, values, '
                 f'comments, fixups, materials, cordon and visgroup names, every Output field with both separators incl. instance names, '
                 f'BSP entity-lump keys and values, DMX KV2 attribute names, values, array items, element names and types) and read back '
-                f'with that reader\'s tokenizer settings. '
+                f'with that reader\'s tokenizer settings and by the format\'s own reader, each followed at the same site by its other-case / casefold() spelling; strings of length <= 3 also through every way of consuming a tokenizer, every two-chunk split and with allow_escapes switched on after construction. '
                 f'Non-trivial = escape_text changes the string. Each (string, mode) pair is enumerated once.')
 
 
 def replay(case: dict) -> list:
     acc = core.Acc()
     if 'site' in case:
-        check_sites(acc, case['s'])
-        return [f for f in acc.all_failures() if f.case.get('site') == case['site']]
+        check_sites(acc, case.get('after', case['s']))
+        return [f for f in acc.all_failures() if f.case.get('site') == case['site'] and f.case.get('s') == case['s']]
     check_one(acc, case['s'], case['multiline'], True)
     return acc.all_failures()
